@@ -189,7 +189,7 @@ def run(prog: Program, rep: Report, tier: str = "quick") -> None:
     seen = set()
     for lst in parallel_map(_job, jobs):
         for d in lst:
-            key = (d["rule"], d["verdict"], d["module"], d["function"], d["construct"])
+            key = (d["rule"], d["verdict"], d["module"], d["function"], d["construct"], d.get("model", ""))
             if key in seen:
                 continue
             seen.add(key)
